@@ -113,7 +113,12 @@ func keywordBlock(sb *strings.Builder, indent int, key, text string, width int) 
 	for len(head) < 12 {
 		head += " "
 	}
-	lines := wrapWords(text, width-12)
+	// a run of blanks inside the text belongs to the text (VERSION "U49845.1  GI:1293613", structured comments):
+	// it is never a place to break the line
+	lines := wrapWords(strings.ReplaceAll(text, "  ", "\x00\x00"), width-12)
+	for i := range lines {
+		lines[i] = strings.ReplaceAll(lines[i], "\x00", " ")
+	}
 	sb.WriteString(strings.TrimRight(head+lines[0], " ") + "\n")
 	for _, l := range lines[1:] {
 		sb.WriteString(strings.Repeat(" ", 12) + l + "\n")
@@ -363,22 +368,46 @@ func RandGBRecord(r *rand.Rand, seqLen int, maxFeatures int, maxText int) *GBRec
 	if r.Intn(4) == 0 {
 		rec.Name = strings.ToLower(RandWordAlnum(r, 10+r.Intn(14))) // longer than the 16-column field now and then
 	}
+	if r.Intn(12) == 0 {
+		// construct names as plasmid editors export them: name and length together do not fit columns 13-40
+		rec.Name = strings.ToLower(RandWordAlnum(r, 6+r.Intn(8))) + []string{"-", "_", "."}[r.Intn(3)] + strings.ToLower(RandWordAlnum(r, 12+r.Intn(20)))
+	}
 	rec.MolType = gbMolTypes[r.Intn(len(gbMolTypes))]
 	rec.Topology = []string{"linear", "circular", ""}[r.Intn(3)]
 	rec.Division = gbDivisions[r.Intn(len(gbDivisions))]
 	rec.Date = fmt.Sprintf("%02d-%s-%04d", 1+r.Intn(28), gbMonths[r.Intn(12)], 1980+r.Intn(45))
 	hz := []float64{0, 0.05, 0.3}[r.Intn(3)]
+	// dbl doubles one blank of a text now and then (aligned columns in structured comments, typing habits)
+	dbl := func(t string) string {
+		if r.Intn(5) != 0 {
+			return t
+		}
+		var at []int
+		for i := 1; i+1 < len(t); i++ {
+			if t[i] == ' ' && t[i-1] != ' ' && t[i+1] != ' ' {
+				at = append(at, i)
+			}
+		}
+		if len(at) == 0 {
+			return t
+		}
+		i := at[r.Intn(len(at))]
+		return t[:i] + " " + t[i:]
+	}
 	txt := func(max int) string {
 		if max > maxText {
 			max = maxText
 		}
 		return RandText(r, max, hz)
 	}
-	rec.Definition = txt(300)
+	rec.Definition = dbl(txt(300))
 	rec.Accession = RandWordAlnum(r, 6+r.Intn(4))
 	rec.Version = rec.Accession + "." + fmt.Sprint(1+r.Intn(9))
+	if r.Intn(3) == 0 {
+		rec.Version += "  GI:" + fmt.Sprint(100000+r.Intn(90000000)) // the line as GenBank wrote it until 2017
+	}
 	rec.Keywords = []string{".", txt(80)}[r.Intn(2)]
-	rec.Source = txt(60)
+	rec.Source = dbl(txt(60))
 	rec.OrgName = txt(40)
 	for i := r.Intn(4); i > 0; i-- {
 		rec.Lineage = append(rec.Lineage, RandText(r, 50, 0)+";")
@@ -389,7 +418,7 @@ func RandGBRecord(r *rand.Rand, seqLen int, maxFeatures int, maxText int) *GBRec
 			ref.Authors = txt(200)
 		}
 		if r.Intn(5) != 0 {
-			ref.Title = txt(300)
+			ref.Title = dbl(txt(300))
 		}
 		if r.Intn(5) != 0 {
 			ref.Journal = txt(150)
@@ -403,7 +432,7 @@ func RandGBRecord(r *rand.Rand, seqLen int, maxFeatures int, maxText int) *GBRec
 		rec.Refs = append(rec.Refs, ref)
 	}
 	for _, k := range r.Perm(len(gbExtraKeys))[:r.Intn(4)] {
-		rec.Extras = append(rec.Extras, GBExtra{gbExtraKeys[k], txt(2000)})
+		rec.Extras = append(rec.Extras, GBExtra{gbExtraKeys[k], dbl(txt(2000))})
 	}
 	nf := 0
 	if maxFeatures > 0 {
